@@ -246,6 +246,16 @@ def gen_cases(run, thorough):
             cases.append((line, {"section": "ring-tracking-block-boundary", "quality": qs, "quality_set": q, "lgwin": w, "lgwin_set": w, "lgblock": lb,
                                  "lgblock_set": 0, "mode": 0, "large_window": 0, "kind": "rs%d" % seg, "n": seg * nseg, "style": "no-flush",
                                  "params": dict(("p%d" % k, v) for k, v in p)}))
+    # J. large literal_byte_score (parameter 154): the score of a static-dictionary match grows with it, so that
+    #    degenerate dictionary matches win over everything else (finding C01-one-byte-dictionary-match-self-copy,
+    #    fixed by 4c6c0ca: roughly 1 in 30 PRNG inputs of 30 KB at qualities 5-9)
+    for score in (2400, 4000, 100000, (1 << 31) - 1):
+        for q in (5, 6, 7, 9, 2, 3, 4):
+            for i in range((10 if q >= 5 else 2) * (2 if thorough else 1)):
+                add("large-literal-byte-score", [(1, q), (2, rng.choice([18, 22, 24])), (154, score)], "rand", rng.randrange(20000, 40001), sd(), "one")
+            add("large-literal-byte-score", [(1, q), (2, 22), (154, score)], rng.choice(["text", "mix", "html"]), rng.randrange(20000, 40001), sd(), "one")
+        for q in (5, 9):
+            add("large-literal-byte-score", [(1, q), (2, 22), (154, score), (151, 1)], "rand", rng.randrange(20000, 40001), sd(), "one")
     # H. thorough only: inputs beyond 2^24 bytes (several maximal meta-blocks, lgblock 24 blocks, quality 0/1 fragments
     #    larger than MLEN can express); judged by the two reference decoders only (NOHEX: too large for the extracted D)
     if thorough:
